@@ -177,6 +177,13 @@ def shape_decls(shape, i, v2):
             return [{'k': 'nt', 'name': n + 'Trap', 'objects': vars_, 'status': 'current', 'descr': 'd',
                      'oid': ['testRoot', 0, 20 + i]}]
         return [{'k': 'trap', 'name': n + 'Trap', 'enterprise': ['testRoot'], 'vars': vars_, 'descr': 'd', 'num': 20 + i}]
+    if kind == 'trap0':
+        # the enterprise of the trap is a node whose own OID ends in arc 0
+        zero = {'k': 'value', 'name': n + 'Zero', 'oid': ['testRoot', 0]}
+        if v2:
+            return [zero, {'k': 'nt', 'name': n + 'Trap', 'objects': None, 'status': 'current', 'descr': 'd',
+                           'oid': [n + 'Zero', 0, arg]}]
+        return [zero, {'k': 'trap', 'name': n + 'Trap', 'enterprise': [n + 'Zero'], 'vars': None, 'descr': 'd', 'num': arg}]
     if kind == 'node':
         return [{'k': 'value', 'name': n + 'Node', 'oid': ['testRoot', 10 + i]}]
     raise ValueError(shape)
@@ -207,7 +214,8 @@ def v1_imports(decls):
 
 
 SHAPES = [('scalar', (t, a)) for t in range(len(V1_TYPES)) for a in range(len(ACCESS))] + \
-         [('table', (c, x)) for c in (1, 2) for x in (0, 1, 2)] + [('trap', v) for v in (0, 1, 2)] + [('node', 0)]
+         [('table', (c, x)) for c in (1, 2) for x in (0, 1, 2)] + [('trap', v) for v in (0, 1, 2)] + [('node', 0)] + \
+         [('trap0', 5), ('trap0', 0)]
 SEQ_SHAPES = [('scalar', (1, 0)), ('scalar', (5, 1)), ('table', (1, 0)), ('table', (2, 1)), ('trap', 1), ('node', 0)]
 
 
@@ -292,6 +300,10 @@ def compare(shapes, sig):
             ent = docs.get('s%dScalar' % i, {})
             if ent.get('maxaccess') != ACCESS[sh[1][1]]:
                 vs.append(('%s|json|access-not-maxaccess' % sig, repr(ent)))
+        if sh[0] == 'trap0' and docs:
+            ent = docs.get('s%dTrap' % i, {})
+            if ent.get('oid') != '1.3.6.1.4.1.4242.0.0.%d' % sh[1]:
+                vs.append(('%s|json|trap-oid-not-enterprise.0.number' % sig, repr(ent)))
         if sh[0] == 'trap' and docs:
             ent = docs.get('s%dTrap' % i, {})
             if ent.get('oid') != '1.3.6.1.4.1.4242.0.%d' % (20 + i) or ent.get('class') != 'notificationtype':
